@@ -54,10 +54,13 @@ pub trait Scenario: Sync {
     }
 }
 
+pub mod block_lockstep;
+pub mod bus_crash;
+pub mod mbc_history;
 pub mod timer_batches;
 
 pub fn all() -> Vec<&'static dyn Scenario> {
-    vec![&timer_batches::TimerBatches]
+    vec![&timer_batches::TimerBatches, &block_lockstep::BlockLockstep, &bus_crash::BusCrash, &mbc_history::MbcHistory]
 }
 
 pub fn by_name(name: &str) -> Option<&'static dyn Scenario> {
@@ -67,6 +70,9 @@ pub fn by_name(name: &str) -> Option<&'static dyn Scenario> {
 /// property id -> scenarios that decide it (all are run; evidence is merged)
 pub fn plan(property: &str) -> Vec<&'static str> {
     match property {
+        "C01" | "C02" => vec!["block_lockstep"],
+        "C11" => vec!["bus_crash"],
+        "C12" => vec!["mbc_history"],
         "C13" => vec!["timer_batches"],
         _ => vec![],
     }
